@@ -97,6 +97,23 @@ CLAIMS = {
         design_ref="5/C01",
         note=TRUST + "; terminals are distinct single characters in C01's generated grammars (overlapping terminals are C06)",
         technique="Lean 4 proof (LR soundness + completeness over verified table certificates) + differential correspondence + membership oracle"),
+    "C06": dict(
+        category="proof",
+        text=("Theorems C06_iterator_yields_survivors, C06_lr_acts_on, C06_glr_keeps, C06_glr_grammar_order: for EVERY sorted terminal "
+              "list (key-sorted with ties in grammar order, finish flags as sort_terminals computes them), every matching function "
+              "(any input, any recognizers) and every combination of most_specific / longest_match: the TokenIterator yields a terminal "
+              "iff it matches, has the highest priority among the matching ones and under most-specific is the longest matching string "
+              "recognizer (a regex only if no string of that priority matches); the LR parser acts on a survivor of maximal length if "
+              "longest-match is on and finds none iff nothing survives; GLR with grammar order off keeps exactly those (each becomes a "
+              "frontier head), with grammar order on at most one of them. C06_model_iterator_is_iter links the byte-level LR model's "
+              "iterator; Lex.sortedOk certifies the sorted_terminals list of every state of the real table (the 1000-byte bound of the "
+              "sort key is a forced hypothesis, C06_counterexample_long_string). PARTIAL: the final grammar-order step (first = earliest in "
+              "the grammar) is decided by oracle + correspondence. Tie A: tokens shifted by the real LR parser vs model; LR and GLR token "
+              "sequences vs the documented rule written as an independent python specification, all 4 (LR) / 8 (GLR) switch "
+              "combinations. One defect found by the oracle is repaired by a fix: commit (priority-group end flag)."),
+        design_ref="5/C06",
+        note=TRUST + "; regex terminals restricted to a class where python re and the Rust regex crate agree",
+        technique="Lean 4 proof over all sorted terminal lists and matching functions + per-state certificate + documented-rule oracle"),
     "C07": dict(
         category="proof",
         text=("PARTIAL. Proved: C07_lr_tree_is_the_unique_derivation (on a certified deterministic table the tree the LR parser returns "
